@@ -352,6 +352,42 @@ def _kv(key: bytes, val: bytes) -> bytes:
     return var_bytes.serialize(key) + var_bytes.serialize(val)
 
 
+def keydata_variants(seed_list: list[bytes], limit: int) -> list[bytes]:
+    """Every kind of record met in the vendored PSBTs -- (global or not, key type, key length) -- once with one octet of key data appended to its key, and once
+    with the last octet of its key data dropped: a type that takes no key data (or a fixed size of it) must refuse the pair or write it back as it read it."""
+    from btclib import var_int
+
+    seen: set[tuple[bool, int, int, str]] = set()
+    out: list[bytes] = []
+    for b in seed_list:
+        pos, j = 5, 0
+        try:
+            while pos < len(b) and len(out) < limit:
+                st = io.BytesIO(b[pos:])
+                while True:
+                    at = pos + st.tell()
+                    kl = var_int.parse(st)
+                    if kl == 0:
+                        break
+                    key = st.read(kl)
+                    vl = var_int.parse(st)
+                    st.read(vl)
+                    if kl >= 0xFC:
+                        continue
+                    for how in ("longer", "shorter"):
+                        cls = (j == 0, key[0], kl, how)
+                        if cls in seen or (how == "shorter" and kl < 2):
+                            continue
+                        seen.add(cls)
+                        new_key = key + b"\xaa" if how == "longer" else key[:-1]
+                        out.append(b[:at] + bytes([len(new_key)]) + new_key + b[at + 1 + kl:])
+                pos += st.tell()
+                j += 1
+        except Exception:  # noqa: BLE001
+            continue
+    return out[:limit]
+
+
 def enrich_psbt(b: bytes, rnd: random.Random) -> list[bytes]:
     """Insert extra key-value pairs (unknown, proprietary, taproot derivations with several leaf hashes) into each map."""
     out = []
@@ -510,9 +546,10 @@ def record_psbt(run: Run, rnd: random.Random, limit: int, evs: list[dict[str, An
     rnd.shuffle(seeds_)
     n = 0
     accepted_n = 0
-    for s in seeds_[:limit] + ([repro] if repro else []):
-        v0 = psbt_version0(s) if s is not repro else None
-        for b in [s] + (enrich_psbt(s, rnd) if s is not repro else []) + ([v0] if v0 else []):
+    kd = keydata_variants(sorted(seeds_), 400 if limit > 100 else 120)
+    for s in seeds_[:limit] + ([repro] if repro else []) + kd:
+        v0 = psbt_version0(s) if s is not repro and s not in kd else None
+        for b in [s] + (enrich_psbt(s, rnd) if s is not repro and s not in kd else []) + ([v0] if v0 else []):
             n += 1
             try:
                 p = Psbt.parse(b)
